@@ -3,10 +3,15 @@
 #define VF_MONITORS_HPP
 #include "common.hpp"
 #include <typeinfo>
+#include <atomic>
 
 namespace vf{
 
 typedef std::function<void(CaseCtx&, Rng&)> Monitor;
+// handler of the library's guarded hook points (TSG_VERIF_HOOK(tag, a, b)); tsg_verif_hook() is defined once in hooks.cpp and dispatches here.
+// A monitor installs its handler with g_hook_handler.store(fn) for the duration of a case and resets it to nullptr afterwards.
+typedef void (*HookFn)(const char *tag, long a, long b);
+extern std::atomic<HookFn> g_hook_handler;
 std::map<std::string, Monitor> const& registry();
 
 std::string arg(std::string const &k, std::string const &def);
@@ -60,6 +65,7 @@ struct HState{
     int vmode = 0;
     bool values_are_model = true;  // false after merge (zeros) / set_coeffs (values = surrogate at nodes)
     std::vector<std::string> trace;
+    std::function<void(std::vector<double> const&)> on_candidates; // called with every candidate list requested during construction
 };
 // value model used by histories: tagged by coordinates, output and generation
 std::vector<double> model_values(std::vector<double> const &pts, int dims, int outs, int gen, int vmode);
@@ -87,6 +93,9 @@ namespace vf{
 // C01 oracle: surrogate reproduces stored values at every loaded point through evaluateBatch / evaluate / evaluateFast.
 // returns the largest scaled error observed (error / tolerance); reports violations with keys "<prefix>:<route>:<family>..."
 double check_reproduction(TasmanianSparseGrid const &g, CaseCtx &c, Rng &rng, std::string const &prefix, std::string const &after);
+// points on the boundary of a transformed domain moved two ulps towards the interior (rounding of the map back to canonical coordinates
+// must not push a node out of the support of compactly supported bases); identity when no domain transform is set
+std::vector<double> interior_nudged(TasmanianSparseGrid const &g, std::vector<double> const &x);
 std::vector<double> history_scale(TasmanianSparseGrid const &g, int output, uint64_t seed);
 // monitors
 void mon_c01(CaseCtx&, Rng&); void mon_c02(CaseCtx&, Rng&); void mon_c03(CaseCtx&, Rng&); void mon_c04(CaseCtx&, Rng&);
